@@ -115,6 +115,263 @@ func syncCloneTable(repo string) (string, string, error) {
 		}
 		return "false"
 	}
+	// ---- struct field lists and the two other composite literals / Options.Clone
+	structFields := func(file, name string) ([]string, map[string]string, error) {
+		fs := token.NewFileSet()
+		f, err := parser.ParseFile(fs, filepath.Join(repo, file), nil, 0)
+		if err != nil {
+			return nil, nil, err
+		}
+		var names []string
+		kinds := map[string]string{}
+		found := false
+		ast.Inspect(f, func(n ast.Node) bool {
+			ts, ok := n.(*ast.TypeSpec)
+			if !ok || ts.Name.Name != name {
+				return true
+			}
+			st, ok := ts.Type.(*ast.StructType)
+			if !ok {
+				return true
+			}
+			found = true
+			for _, fl := range st.Fields.List {
+				kind := "value"
+				switch fl.Type.(type) {
+				case *ast.MapType:
+					kind = "map"
+				case *ast.ArrayType:
+					kind = "slice"
+				case *ast.StarExpr:
+					kind = "pointer"
+				case *ast.FuncType:
+					kind = "func"
+				}
+				if sel, ok := fl.Type.(*ast.SelectorExpr); ok && (sel.Sel.Name == "Values" || sel.Sel.Name == "Header") {
+					kind = "map" // url.Values, http.Header
+				}
+				if len(fl.Names) == 0 { // embedded
+					var nm string
+					switch t := fl.Type.(type) {
+					case *ast.StarExpr:
+						switch x := t.X.(type) {
+						case *ast.Ident:
+							nm = x.Name
+						case *ast.SelectorExpr:
+							nm = x.Sel.Name
+						}
+					case *ast.SelectorExpr:
+						nm = t.Sel.Name
+					case *ast.Ident:
+						nm = t.Name
+					}
+					names = append(names, nm)
+					kinds[nm] = kind
+					continue
+				}
+				for _, id := range fl.Names {
+					names = append(names, id.Name)
+					kinds[id.Name] = kind
+				}
+			}
+			return false
+		})
+		if !found {
+			return nil, nil, fmt.Errorf("%s: struct %s not found", file, name)
+		}
+		return names, kinds, nil
+	}
+	clientFields, clientKinds, err := structFields("client.go", "Client")
+	if err != nil {
+		return "", "", err
+	}
+	transportFields, _, err := structFields("transport.go", "Transport")
+	if err != nil {
+		return "", "", err
+	}
+	t2Fields, _, err := structFields("internal/http2/transport.go", "Transport")
+	if err != nil {
+		return "", "", err
+	}
+	optionFields, optionKinds, err := structFields("internal/transport/option.go", "Options")
+	if err != nil {
+		return "", "", err
+	}
+	// the http2 transport literal inside Transport.Clone: F: t.t2.F (carried), F: cloneSlice(t.t2.F) (deep)
+	t2lit := map[string]string{}
+	var transportLitKeys, t2LitKeys []string
+	plainCopy := func(e ast.Expr, base []string, field string) bool { // e == base[0].base[1]...field
+		parts := append(append([]string{}, base...), field)
+		for i := len(parts) - 1; i >= 1; i-- {
+			sel, ok := e.(*ast.SelectorExpr)
+			if !ok || sel.Sel.Name != parts[i] {
+				return false
+			}
+			e = sel.X
+		}
+		id, ok := e.(*ast.Ident)
+		return ok && id.Name == parts[0]
+	}
+	transportPlain := map[string]bool{}
+	optionsCloned := false
+	ast.Inspect(tfd.Body, func(n ast.Node) bool {
+		cl, ok := n.(*ast.CompositeLit)
+		if !ok {
+			return true
+		}
+		switch ty := cl.Type.(type) {
+		case *ast.Ident:
+			if ty.Name == "Transport" {
+				for _, el := range cl.Elts {
+					if kv, ok := el.(*ast.KeyValueExpr); ok {
+						k := kv.Key.(*ast.Ident).Name
+						transportLitKeys = append(transportLitKeys, k)
+						transportPlain[k] = plainCopy(kv.Value, []string{"t"}, k)
+						if k == "Options" {
+							if c, ok := kv.Value.(*ast.CallExpr); ok {
+								if sel, ok := c.Fun.(*ast.SelectorExpr); ok && sel.Sel.Name == "Clone" && plainCopy(sel.X, []string{"t"}, "Options") {
+									optionsCloned = true
+								}
+							}
+						}
+					}
+				}
+			}
+		case *ast.SelectorExpr:
+			if ty.Sel.Name == "Transport" { // h2internal.Transport
+				for _, el := range cl.Elts {
+					if kv, ok := el.(*ast.KeyValueExpr); ok {
+						k := kv.Key.(*ast.Ident).Name
+						t2LitKeys = append(t2LitKeys, k)
+						switch {
+						case plainCopy(kv.Value, []string{"t", "t2"}, k):
+							t2lit[k] = "plain"
+						case deepCall(kv.Value):
+							t2lit[k] = "deep"
+						default:
+							t2lit[k] = "other"
+						}
+					}
+				}
+			}
+		}
+		return true
+	})
+	// Options.Clone: `oo := o`, then oo.F = ... assignments
+	ofs := token.NewFileSet()
+	of, err := parser.ParseFile(ofs, filepath.Join(repo, "internal/transport/option.go"), nil, 0)
+	if err != nil {
+		return "", "", err
+	}
+	optValueCopy := false
+	optAssigned := map[string]bool{}
+	tlsCloned, tlsCerts, tlsRoots, dumperCloned := false, false, false, false
+	for _, d := range of.Decls {
+		fd, ok := d.(*ast.FuncDecl)
+		if !ok || fd.Name.Name != "Clone" || fd.Recv == nil {
+			continue
+		}
+		ast.Inspect(fd.Body, func(n ast.Node) bool {
+			as, ok := n.(*ast.AssignStmt)
+			if !ok || len(as.Lhs) != 1 || len(as.Rhs) != 1 {
+				return true
+			}
+			if id, ok := as.Lhs[0].(*ast.Ident); ok && id.Name == "oo" {
+				if r, ok := as.Rhs[0].(*ast.Ident); ok && r.Name == "o" {
+					optValueCopy = true
+				}
+			}
+			if plainCopy(as.Lhs[0], []string{"oo"}, "TLSClientConfig") && deepCall(as.Rhs[0]) {
+				tlsCloned = true
+			} else if plainCopy(as.Lhs[0], []string{"oo"}, "Dump") && deepCall(as.Rhs[0]) {
+				dumperCloned = true
+			} else if plainCopy(as.Lhs[0], []string{"oo", "TLSClientConfig"}, "Certificates") {
+				tlsCerts = true // a freshly made slice (make + copy)
+			} else if plainCopy(as.Lhs[0], []string{"oo", "TLSClientConfig"}, "RootCAs") && deepCall(as.Rhs[0]) {
+				tlsRoots = true
+			} else if sel, ok := as.Lhs[0].(*ast.SelectorExpr); ok {
+				if x, ok := sel.X.(*ast.Ident); ok && x.Name == "oo" {
+					optAssigned[sel.Sel.Name] = true
+				}
+			}
+			return true
+		})
+	}
+	// Client.Clone: http.Client value copy, initCookieJar, re-wiring of the cloned Dumper, plain re-assignments
+	httpClientCopy, jarInit, dumpLink := false, false, false
+	clientAssigned := map[string]bool{}
+	ast.Inspect(cfd.Body, func(n ast.Node) bool {
+		switch x := n.(type) {
+		case *ast.AssignStmt:
+			if len(x.Lhs) == 1 && len(x.Rhs) == 1 {
+				if st, ok := x.Rhs[0].(*ast.StarExpr); ok && plainCopy(st.X, []string{"c"}, "httpClient") {
+					httpClientCopy = true
+				}
+				if sel, ok := x.Lhs[0].(*ast.SelectorExpr); ok {
+					if id, ok := sel.X.(*ast.Ident); ok && id.Name == "cc" && !deepCall(x.Rhs[0]) {
+						clientAssigned[sel.Sel.Name] = true
+					}
+				}
+			}
+		case *ast.CallExpr:
+			if sel, ok := x.Fun.(*ast.SelectorExpr); ok {
+				if sel.Sel.Name == "initCookieJar" && plainCopy(sel, []string{"cc"}, "initCookieJar") {
+					jarInit = true
+				}
+				if sel.Sel.Name == "SetOptions" && plainCopy(sel.X, []string{"cc"}, "Dump") {
+					dumpLink = true
+				}
+			}
+		}
+		return true
+	})
+	has := func(l []string, x string) bool {
+		for _, y := range l {
+			if x == y {
+				return true
+			}
+		}
+		return false
+	}
+	// value-typed settings the model tracks (Model/Settings.v SCAL_KEYS), where they live, whether Clone carries them over
+	type loc struct{ where, field string }
+	scalLocs := []loc{{"client", "BaseURL"}, {"httpclient", "Timeout"}, {"client", "DebugLog"}, {"options", "ResponseHeaderTimeout"},
+		{"client", "AllowGetMethodPayload"}, {"options", "TLSHandshakeTimeout"}, {"options", "Proxy"}, {"transport", "disableAutoDecode"},
+		{"transport", "autoDecodeContentType"}, {"transport", "forceHttpVersion"}, {"options", "DisableKeepAlives"},
+		{"t2", "MaxHeaderListSize"}, {"t2", "ConnectionFlow"}, {"t2", "StrictMaxConcurrentStreams"}, {"t2", "ReadIdleTimeout"},
+		{"t2", "PingTimeout"}, {"t2", "WriteByteTimeout"}, {"t2", "HeaderPriority"}, {"client", "outputDirectory"}, {"options", "MaxIdleConns"},
+		{"client", "trace"}, {"client", "disableAutoReadResponse"}}
+	var scal []string
+	for k, l := range scalLocs {
+		carried := false
+		switch l.where {
+		case "client":
+			if !has(clientFields, l.field) {
+				return "", "", fmt.Errorf("Client has no field %s any more", l.field)
+			}
+			carried = valueCopy && !clientAssigned[l.field]
+		case "httpclient":
+			carried = httpClientCopy
+		case "options":
+			if !has(optionFields, l.field) {
+				return "", "", fmt.Errorf("transport.Options has no field %s any more", l.field)
+			}
+			carried = optionsCloned && optValueCopy && !optAssigned[l.field]
+		case "transport":
+			if !has(transportFields, l.field) {
+				return "", "", fmt.Errorf("Transport has no field %s any more", l.field)
+			}
+			carried = transportPlain[l.field]
+		case "t2":
+			if !has(t2Fields, l.field) {
+				return "", "", fmt.Errorf("http2 Transport has no field %s any more", l.field)
+			}
+			carried = t2lit[l.field] == "plain"
+		}
+		if carried {
+			scal = append(scal, fmt.Sprint(k))
+		}
+	}
 	var sl, mp []string
 	for _, f := range []struct {
 		name      string
@@ -128,6 +385,7 @@ func syncCloneTable(repo string) (string, string, error) {
 		}
 		sl = append(sl, b(d))
 	}
+	sl = append(sl, b(t2lit["Settings"] == "deep"), b(t2lit["PriorityFrames"] == "deep"))
 	for _, f := range []struct {
 		name      string
 		transport bool
@@ -140,11 +398,45 @@ func syncCloneTable(repo string) (string, string, error) {
 		}
 		mp = append(mp, b(d))
 	}
-	out := "(* generated by harness/c19 gosync from Client.Clone (client.go) and Transport.Clone (transport.go) - do not edit.\n" +
+	strs := func(l []string) string {
+		q := make([]string, len(l))
+		for i, x := range l {
+			q[i] = "\"" + x + "\""
+		}
+		return "[" + strings.Join(q, "; ") + "]%string"
+	}
+	var clientRefFields, clientDeepFields, optionRefFields []string
+	for _, f := range clientFields {
+		if k := clientKinds[f]; k == "map" || k == "slice" || k == "pointer" {
+			clientRefFields = append(clientRefFields, f)
+		}
+		if clientDeep[f] {
+			clientDeepFields = append(clientDeepFields, f)
+		}
+	}
+	for _, f := range optionFields {
+		if k := optionKinds[f]; k == "map" || k == "slice" || k == "pointer" {
+			optionRefFields = append(optionRefFields, f)
+		}
+	}
+	out := "(* generated by harness/c19 gosync from Client.Clone (client.go), Transport.Clone (transport.go) and Options.Clone\n" +
+		"   (internal/transport/option.go) - do not edit.\n" +
 		"   true = the clone receives a deep copy of the field, false = it keeps the original's reference.\n" +
-		"   slices: Cookies, roundTripWrappers, httpRoundTripWrappers, udBeforeRequest, afterResponse\n" +
-		"   maps:   Headers, QueryParams, FormData, PathParams;  t_rt: retryOption *)\n" +
-		"From Coq Require Import List.\nFrom ReqV Require Import Model.Settings.\nImport ListNotations.\n" +
-		"Definition gen_tbl : ctbl :=\n  {| t_sl := [" + strings.Join(sl, "; ") + "];\n     t_mp := [" + strings.Join(mp, "; ") + "];\n     t_rt := " + b(clientDeep["retryOption"]) + " |}.\n"
+		"   slices: Cookies, roundTripWrappers, httpRoundTripWrappers, udBeforeRequest, afterResponse, t2.Settings, t2.PriorityFrames\n" +
+		"   maps:   Headers, QueryParams, FormData, PathParams;  t_rt: retryOption;  t_scal: the value-typed settings\n" +
+		"   (by key, Model/Settings.v) Clone carries over *)\n" +
+		"From Coq Require Import List String.\nFrom ReqV Require Import Model.Settings.\nImport ListNotations.\n" +
+		"Definition gen_tbl : ctbl :=\n  {| t_sl := [" + strings.Join(sl, "; ") + "];\n     t_mp := [" + strings.Join(mp, "; ") + "];\n     t_rt := " + b(clientDeep["retryOption"]) + ";\n" +
+		"     t_scal := [" + strings.Join(scal, "; ") + "];\n" +
+		"     t_jar := " + b(jarInit) + "; t_dopt := " + b(clientDeep["dumpOptions"]) + "; t_dumper := " + b(optionsCloned && dumperCloned) + "; t_link := " + b(dumpLink) + ";\n" +
+		"     t_tls := " + b(optionsCloned && tlsCloned && tlsCerts && tlsRoots) + " |}.\n\n" +
+		"(* field inventories: every field of the structs, and what the Clone functions mention *)\n" +
+		"Definition gen_client_ref_fields : list string := " + strs(clientRefFields) + ".\n" +
+		"Definition gen_client_deep_fields : list string := " + strs(clientDeepFields) + ".\n" +
+		"Definition gen_transport_fields : list string := " + strs(transportFields) + ".\n" +
+		"Definition gen_transport_clone_fields : list string := " + strs(transportLitKeys) + ".\n" +
+		"Definition gen_t2_fields : list string := " + strs(t2Fields) + ".\n" +
+		"Definition gen_t2_clone_fields : list string := " + strs(t2LitKeys) + ".\n" +
+		"Definition gen_options_ref_fields : list string := " + strs(optionRefFields) + ".\n"
 	return "CloneTable.v", out, nil
 }
